@@ -197,6 +197,45 @@ const TEMPLATES2: [(&str, &str, &str, &str); 12] = [
     ("max-block", "min max{ {H1}, {H2} }", "x >= 0", ""),
 ];
 
+
+/// family T7: the order in which iteration sets bind their variables. Iterator expressions that mention the
+/// variable of a LATER set (`j`), of their OWN set (`i`), or of an earlier set (`h`, the legal case)
+const ORDER_ITERS: [(&str, &str); 17] = [
+    ("later:range-end", "0..j"),
+    ("later:range-start", "j..3"),
+    ("later:range-end-arith", "0..j + 1"),
+    ("later:range-end-len-minus", "0..len(A) - j"),
+    ("later:range-end-array-item", "0..A[j]"),
+    ("later:range-call", "range(0, j, true)"),
+    ("later:matrix-row", "M[j]"),
+    ("later:enumerate-row", "enumerate(M[j])"),
+    ("own:range-end", "0..i"),
+    ("own:range-start", "i..3"),
+    ("own:range-end-array-item", "0..A[i]"),
+    ("own:matrix-row", "M[i]"),
+    ("earlier:range-end", "0..h + 1"),
+    ("earlier:matrix-row", "M[h]"),
+    ("earlier:range-end-array-item", "0..A[h]"),
+    ("outer-then-later:range", "h..j"),
+    ("plain:range", "0..2"),
+];
+const ORDER_SHAPES: [(&str, &str, &str, &str); 14] = [
+    ("sum", "min sum(h in 0..2, i in {E}, j in 0..2) { x }", "x >= 0", ""),
+    ("prod", "min x * prod(h in 0..2, i in {E}, j in 0..2) { 2 }", "x >= 0", ""),
+    ("min-block", "min min(h in 0..2, i in {E}, j in 0..2) { x + 1 }", "x >= 0", ""),
+    ("max-block", "min max(h in 0..2, i in {E}, j in 0..2) { x + 1 }", "x >= 0", ""),
+    ("avg-block", "min avg(h in 0..2, i in {E}, j in 0..2) { x }", "x >= 0", ""),
+    ("all-block", "min x", "all(h in 0..2, i in {E}, j in 0..2) { b }", ""),
+    ("any-block", "min x", "any(h in 0..2, i in {E}, j in 0..2) { b }", ""),
+    ("constraint-for", "min x", "x >= 0 for h in 0..2, i in {E}, j in 0..2", ""),
+    ("declaration-for", "min x", "x >= 0", "    z_h as Real(0, 1) for h in 0..2, i in {E}, j in 0..2\n"),
+    ("block-nested-in-block", "min sum(h in 0..2) { sum(i in {E}, j in 0..2) { x } }", "x >= 0", ""),
+    ("block-in-constraint-for", "min x", "sum(i in {E}, j in 0..2) { x } >= 0 for h in 0..2", ""),
+    ("two-sets-only", "min sum(i in {E}, j in 0..2) { x } + sum(h in 0..1) { x }", "x >= 0", ""),
+    ("later-set-destructured", "min sum(h in 0..2, i in {E}, (j, w) in enumerate(A)) { x }", "x >= 0", ""),
+    ("single-set", "min sum(i in {E}) { x } + sum(h in 0..1, j in 0..1) { x }", "x >= 0", ""),
+];
+
 fn program(objective: &str, constraints: &str, extra: &str) -> String {
     let (lets, defs): (String, String) = if let Some(rest) = extra.strip_prefix("LET ") { (format!("    let {rest}"), String::new()) } else { (String::new(), extra.to_string()) };
     format!("{objective}\ns.t.\n    {constraints}\n{PRELUDE_WHERE}{lets}{PRELUDE_DEFINE}{defs}")
@@ -345,7 +384,7 @@ fn check_program(src: &str, template: &str, atoms: &str, l: &mut Local) {
 pub fn run(mut run: Run) -> ! {
     crate::core::silence_panics();
     let quick = run.quick();
-    run.rule = format!("every (template x atom) program: {} single-hole templates covering every operand, block, scoped-block body, iterator, range end, destructuring, index, function-argument, declaration-bound, declaration-iterator, constraint-iterator, constraint-name and constant position x 30 typed atoms (numbers, booleans, strings, arrays of every element kind, graph, constants, calls, domain variables, undeclared names); 8 scoped templates x (30 + 6 scoped atoms: node, edge, tuple, iterator, element, shadowed constant); the single-hole templates again wrapped in an iteration scope x 10 iteration-only atoms (node, edge, edge endpoint, edge weight, enumerate tuple, string element, boolean element, matrix row, range variable, array element); 22 wrong-arity calls; 12 two-hole templates x all atom pairs; thorough: the two-hole templates inside the iteration scope x all pairs of the 40 plain and iteration-only atoms; distinct = accepted program texts; non-trivial = accepted by the type checker", TEMPLATES.len());
+    run.rule = format!("every (template x atom) program: {} single-hole templates covering every operand, block, scoped-block body, iterator, range end, destructuring, index, function-argument, declaration-bound, declaration-iterator, constraint-iterator, constraint-name and constant position x 30 typed atoms (numbers, booleans, strings, arrays of every element kind, graph, constants, calls, domain variables, undeclared names); 8 scoped templates x (30 + 6 scoped atoms: node, edge, tuple, iterator, element, shadowed constant); the single-hole templates again wrapped in an iteration scope x 10 iteration-only atoms (node, edge, edge endpoint, edge weight, enumerate tuple, string element, boolean element, matrix row, range variable, array element); 22 wrong-arity calls; 12 two-hole templates x all atom pairs; 14 scoping shapes (every scoped block kind, constraint and declaration iterations, nested scopes) x 17 iterator expressions that mention the variable of a later set, of their own set, of an earlier set or of no set; thorough: the two-hole templates inside the iteration scope x all pairs of the 40 plain and iteration-only atoms; distinct = accepted program texts; non-trivial = accepted by the type checker", TEMPLATES.len());
     run.assume("type-class error kinds: UndeclaredVariable, WrongArgument, WrongExpectedArgument, WrongFunctionSignature, WrongNumberOfArguments, NonExistentFunction, Unspreadable, SpreadError, UnOpError, BinOpError unless both operands are numeric kinds (division by zero / overflow), Other(domain variable used as a value), Other(block arity)");
     run.family("T1-single-hole", (TEMPLATES.len() * ATOMS.len()) as u64, |i, l| {
         let (tname, obj, cons, extra) = TEMPLATES[i as usize / ATOMS.len()];
@@ -420,6 +459,12 @@ pub fn run(mut run: Run) -> ! {
             check_program(&src, tname, &format!("{a1}+{a2}"), l);
         });
     }
+    run.family("T7-binding-order-of-iteration-sets", (ORDER_SHAPES.len() * ORDER_ITERS.len()) as u64, |i, l| {
+        let (sname, obj, cons, extra) = ORDER_SHAPES[i as usize / ORDER_ITERS.len()];
+        let (ename, etext) = ORDER_ITERS[i as usize % ORDER_ITERS.len()];
+        let src = program(&obj.replace("{E}", etext), &cons.replace("{E}", etext), &extra.replace("{E}", etext));
+        check_program(&src, &format!("order:{sname}"), ename, l);
+    });
     run.require("type_check:accepted");
     run.require("type_check:rejected");
     run.require("accepted:transform-ok");
